@@ -195,6 +195,12 @@ func (s *pstate) forget(fragment string) {
 // explore walks every path from start; visit is called for each instruction with the current state and may
 // mutate it. stop(block) ends a path (e.g. the loop header: one iteration only).
 func explore(start *ssa.BasicBlock, init *pstate, stop func(b *ssa.BasicBlock) bool, visit func(ins ssa.Instruction, st *pstate)) (pairs int, truncated bool) {
+	return exploreEdges(start, init, stop, visit, nil)
+}
+
+// exploreEdges is explore with a hook called for every feasible edge taken (also for edges into stopped blocks);
+// incoming(to, from, v) resolves what a phi of `to` receives on that edge.
+func exploreEdges(start *ssa.BasicBlock, init *pstate, stop func(b *ssa.BasicBlock) bool, visit func(ins ssa.Instruction, st *pstate), onEdge func(from, to *ssa.BasicBlock, st *pstate)) (pairs int, truncated bool) {
 	type item struct {
 		b    *ssa.BasicBlock
 		prev *ssa.BasicBlock
@@ -243,6 +249,9 @@ func explore(start *ssa.BasicBlock, init *pstate, stop func(b *ssa.BasicBlock) b
 				if !s2.assume(iff.Cond, val) {
 					continue
 				}
+				if onEdge != nil {
+					onEdge(it.b, succ, s2)
+				}
 				if stop != nil && stop(succ) {
 					continue
 				}
@@ -250,6 +259,9 @@ func explore(start *ssa.BasicBlock, init *pstate, stop func(b *ssa.BasicBlock) b
 			}
 		} else {
 			for _, succ := range it.b.Succs {
+				if onEdge != nil {
+					onEdge(it.b, succ, st)
+				}
 				if stop != nil && stop(succ) {
 					continue
 				}
@@ -258,4 +270,14 @@ func explore(start *ssa.BasicBlock, init *pstate, stop func(b *ssa.BasicBlock) b
 		}
 	}
 	return len(seen), false
+}
+
+// phiIncoming returns what phi (in block to) receives when control arrives from block from, resolved under st.
+func phiIncoming(phi *ssa.Phi, from *ssa.BasicBlock, st *pstate) ssa.Value {
+	for i, p := range phi.Block().Preds {
+		if p == from {
+			return st.resolve(phi.Edges[i])
+		}
+	}
+	return nil
 }
